@@ -21,7 +21,7 @@ def describe(c):
     return "soft_limit=%d; %s; %s" % (soft, ", ".join(ar), "; ".join(o))
 
 
-def oracle(c, toks):
+def oracle(c, toks, liveness=False):
     """The property text on the implementation's output: granted workers sum to min(total demand, limit), nobody gets
     more than requested, higher priority first; with limit 0 at most the one mandatory worker."""
     if not toks or toks[0].startswith("CRASH") or toks[-1] == "HANG":
@@ -67,6 +67,8 @@ def oracle(c, toks):
                 return ("allot-limit0", where + ": with limit 0 only one mandatory worker may be granted")
             if any(a == 1 and mand[i] <= 0 for i, a in enumerate(allot)):
                 return ("allot-limit0", where + ": the mandatory worker went to an arena without enqueued work")
+            if liveness and any(m > 0 and r > 0 for m, r in zip(mand, req)) and sum(allot) != 1:
+                return ("allot-mandatory-worker-missing", where + ": an arena has enqueued work (mandatory concurrency requested) but with limit 0 no worker at all is granted - the enqueued task can never run unless somebody waits in that arena")
     return None
 
 
